@@ -34,7 +34,7 @@ ASSUMPTIONS = [
 @st.composite
 def _case(draw, tier):
     N = 8 if tier == "quick" else 40
-    form = draw(st.sampled_from(["while", "while", "dowhile", "signal", "selfsignal", "waitlast"]))
+    form = draw(st.sampled_from(["while", "while", "dowhile", "signal", "selfsignal", "waitlast", "chat"]))
     step = draw(st.sampled_from([1, 1, 2, 3]))
     start = draw(st.integers(0, 5))
     iters = draw(st.integers(0, N))
@@ -59,6 +59,8 @@ def _case(draw, tier):
         L.update({"k": 2, "acc": False, "nested": False, "limit_input": L["limit_input"]})
     if form == "waitlast":
         L.update({"k": draw(st.integers(3, 4)), "nested": False})
+    if form == "chat":
+        L.update({"k": 1, "acc": False, "nested": False, "step_input": False, "limit": 2 * draw(st.integers(0, N // 2)), "start": 0, "step": 1})
     if L["nested"]:
         # a nested loop whose cycle has >= 2 nodes cannot be entered at all today (open finding F11, reported by C08):
         # the generator avoids that shape by construction so the budget is spent behind the finding
@@ -85,7 +87,7 @@ def _run_kw(L, g):
     eps = g.inputs.entrypoints
     if L.get("entry", 0) > 0:
         kw["entrypoint"] = f"b{L['entry']}"
-    elif len(eps) > 1 and not L.get("nested"):
+    elif len(eps) > 1 and not L.get("nested") and "b0" in eps:
         kw["entrypoint"] = "b0"
     return kw
 
